@@ -4,3 +4,4 @@ import HvProps.C04
 import HvProps.C06
 import HvProps.C03
 import HvProps.C02
+import HvProps.C01
